@@ -11,13 +11,13 @@ open Verif.Props.C05
 #print axioms copy_geometry_abs_to_rel
 #print axioms copy_geometry_implicit_lineto
 #print axioms path_geometry_counterexample
-#print axioms known_closed_witness
-#print axioms known_dropped_witness
-#print axioms known_degenerate_witness
-#print axioms known_traildot_witness
 #print axioms fixed_regressions
 #print axioms path_lex_roundtrip_items
 #print axioms path_lex_roundtrip
 #print axioms path_parse_roundtrip
 #print axioms shorten_output_parses
 #print axioms shorten_output_parses_of_contract
+#print axioms path_geometry_partial
+#print axioms Verif.Proofs.SvgInduct.groups_geometry
+#print axioms Verif.Proofs.SvgSound.rewrite_sound
+#print axioms Verif.Proofs.SvgVal.numVal_numLexeme
